@@ -312,6 +312,29 @@ if "Lit" not in doing.Doer.Registry:
         return None
 
 
+# doer kinds whose class name (the actor name when no `as` clause is given) carries digits / an underscore:
+#   do lit 2 -> Lit2, do lit 3 -> Lit3, do lit 4 -> Lit4, do lit_b -> Lit_b, do big lit 7 -> BigLit7
+for _kind in ("Lit2", "Lit3", "Lit4", "Lit_b", "BigLit7"):
+    if _kind not in doing.Doer.Registry:
+        doing.doify(_kind)(lambda self, **kwa: None)
+
+
+def name_segments(name):
+    """Reference for aiding.nameToPath, from its docstring: camel case name -> node path where every upper case letter
+    starts a new node (lower-cased); all other characters are kept.  Returns the list of segments."""
+    segs, cur = [], ""
+    for c in name:
+        if c.isupper():
+            if cur:
+                segs.append(cur)
+            cur = c.lower()
+        else:
+            cur += c
+    if cur:
+        segs.append(cur)
+    return segs
+
+
 # ----------------------------------------------------------------------------- act walkers
 
 ACT_LISTS = ("beacts", "enacts", "renacts", "preacts", "reacts", "exacts", "rexacts")
